@@ -380,6 +380,15 @@ func runC17(p params) error {
 			many = append(many, c17Frag{16, 50, i, 0, 10, rb(10)})
 		}
 		c17AddCase(out, "recv-many-seqs", c17Input{Kind: "recv", Frags: many, Calls: 1})
+		// one tiny fragment per message_seq, each announcing a large message: the read loop must give up
+		// after its fixed number of iterations however the fragments are spread over message_seq values
+		var flood []c17Frag
+		for i := 0; i < 300; i++ {
+			flood = append(flood, c17Frag{16, 200, i, i % 7, 1, rb(1)})
+		}
+		c17AddCase(out, "recv-seq-flood", c17Input{Kind: "recv", Frags: flood, Calls: 1})
+		c17AddCase(out, "recv-seq-flood", c17Input{Kind: "recv", Frags: flood[:256], Calls: 1})
+		c17AddCase(out, "recv-seq-flood", c17Input{Kind: "recv", Frags: flood[:257], Calls: 2})
 	}
 	// ---- send
 	for i := 0; i < nSend; i++ {
